@@ -547,6 +547,8 @@ class World:
                 return r.v
         if isinstance(f, tuple) and f[0] == "PY":
             return f[1](*args)
+        if isinstance(f, tuple) and f[0] == "F" and hasattr(self, "_free_call"):
+            return self._free_call(f[1], list(args))  # a free function of the file used as a function value (`.map(helper)`)
         raise Unsupported("call of a non-closure")
 
     def list_method(self, recv, m, args, uses):
